@@ -8,7 +8,7 @@ func vpC03N() int {
 	if vp.Tier() == 0 {
 		return 7
 	}
-	return 10
+	return 9
 }
 
 // vpTotal: the statement's obligations and no more. The decoder ran on (tag, b)
